@@ -22,10 +22,12 @@ LEVEL = "fault_enumeration"
 VARIANTS = ["ds_full", "ds_eigh", "ds_quant_pmap", "ds_comp", "ds_comp_neg", "ds_fd", "ds_rmsprop_sched", "ds_sharded", "sm3", "sm3_nomom",
             "tf_shampoo", "tf_sketchy", "tf_shampoo_rmsprop", "ds_adagrad_lobpcg",
             # un-jitted (eager) updates: Python-side hidden state would act at every call, not only at trace time
-            "sm3_eager", "ds_sched_eager", "tf_shampoo_eager"]
+            "sm3_eager", "ds_sched_eager", "tf_shampoo_eager",
+            # frequent directions with gradient averaging (window 1 and 2), multi-block sharded layout
+            "ds_fd_avg1", "ds_fd_avg2", "ds_sharded_blocks"]
 RULE = ("crash-point enumeration: for each optimizer variant in {distributed_shampoo full / eigh / pmap int16-quantised / compressed +1 / compressed -1 / "
         "FD sketch / RMSProp graft + lr schedule + scheduled statistics / sharded 2-device, sm3 (int8 momentum) with and without momentum, Tearfree Shampoo / "
-        "Sketchy / Shampoo+RMSProp graft, AdaGrad graft, and un-jitted (eager) sm3 / scheduled distributed_shampoo / Tearfree Shampoo} x 2 seeds (thorough 6) EVERY interruption point k in 0..T (T=6, thorough 10) is "
+        "Sketchy / Shampoo+RMSProp graft, AdaGrad graft, un-jitted (eager) sm3 / scheduled distributed_shampoo / Tearfree Shampoo, FD with gradient averaging (window 1, 2), sharded with multi-block parameters} x 2 seeds (thorough 6) EVERY interruption point k in 0..T (T=6, thorough 10) is "
         "resumed in a fresh interpreter.  evaluations = (variant, seed, k) resumes; non-trivial when 0<k<T (state has history and steps remain); distinct by (variant, seed, k)")
 ASSUMPTIONS = ["serialization = flax.serialization.to_bytes / from_bytes into the state produced by init() of a freshly constructed optimizer",
                "for pmap variants the per-device state (device 0) is serialized and re-replicated",
@@ -83,6 +85,12 @@ def make(variant):
     return H.make_opt(dict(base, graft_type=6, lobpcg_topk_precondition=0, block_size=8, nesterov=False, exponent_override=2), "jit"), "plain"
   if variant == "ds_sharded":
     return H.make_opt(base, "sharded", 2), "sharded"
+  if variant == "ds_sharded_blocks":
+    return H.make_opt(dict(base, block_size=3, graft_type=3, reuse_preconditioner=True), "sharded", 2), "sharded"
+  if variant in ("ds_fd_avg1", "ds_fd_avg2"):
+    w = 1 if variant == "ds_fd_avg1" else 2
+    return H.make_opt(dict(base, compression_rank=1, block_size=8, frequent_directions=True, reuse_preconditioner=True, average_grad=True,
+                           statistics_compute_steps=w, preconditioning_compute_steps=w), "jit"), "plain"
   if variant in ("sm3", "sm3_nomom"):
     from precondition import sm3
     return sm3.sm3(0.1, beta1=0.9 if variant == "sm3" else 0.0, beta2=0.99), "plain"
